@@ -361,13 +361,16 @@ pub struct ReplayCase {
     /// position of Maximum Packet Size among other CONNACK properties (see `maxprop`)
     #[serde(default)]
     pub dress: u8,
+    /// transmit arena only a little larger than the retained packet (the free space at the handshake is below the limit)
+    #[serde(default)]
+    pub tight: bool,
 }
 
 pub fn eval_replay(c: &ReplayCase) -> CaseOut {
     DRESS.with(|d| d.set(c.dress));
     guarded("C14", || {
         let mut viol = Vec::new();
-        let spec = Spec::plain(64, 512);
+        let spec = Spec::plain(64, if c.tight { c.n + 64 } else { 512 });
         let out = with_session(&spec, |bench, s| {
             let len = {
                 let Conn::Ok(mut conn, id) = connect(bench, s, &connack(false, vec![])) else { return None };
@@ -395,10 +398,36 @@ pub fn eval_replay(c: &ReplayCase) -> CaseOut {
                     None => break,
                 }
             }
-            Some((len, m, bench.written(id)[before..].to_vec(), errs, conn.is_connected()))
+            let written = bench.written(id)[before..].to_vec();
+            // once a fitting QoS 1 publish is acknowledged, a new request larger than the limit (it fits the arena)
+            let mut follow = None;
+            if c.kind == 1 && len as u64 <= m as u64 && written.len() == len && errs.is_empty() {
+                if let Ok((CPacket::Publish(pp), _)) = mr::decode_client(&written) {
+                    if let Some(pid) = pp.pid {
+                        bench.push(id, &mr::SPacket::Ack { kind: mr::AckKind::PubAck, pid, reason: 0, props: vec![], form: 0 }.encode());
+                        let _ = bench.run(conn.poll(), id);
+                        let before2 = bench.written(id).len();
+                        let big = vec![0x55u8; m as usize];
+                        let r = match bench.run(conn.publish(Publication::bytes("t", &big)), id) {
+                            Some(Ok(_)) => Res::Ok,
+                            Some(Err(e)) => Res::from_pub(&e),
+                            None => Res::Cancelled,
+                        };
+                        follow = Some((r, bench.written(id).len() - before2));
+                    }
+                }
+            }
+            Some((len, m, written, errs, conn.is_connected(), follow))
         });
-        let Built::Ran(Some((len, m, written, errs, _alive))) = out else { panic!("machinery: setup failed") };
+        let Built::Ran(Some((len, m, written, errs, _alive, follow))) = out else { panic!("machinery: setup failed") };
         let name = ["", "publish1", "publish2", "subscribe"][c.kind as usize];
+        if let Some((r, sent)) = follow {
+            if sent > 0 {
+                flag(&mut viol, "Z1-oversize", "publish-after-replay", format!("limit {} on a resumed connection: a new {}-byte-payload PUBLISH went out ({} bytes, result {:?})", m, m, sent, r));
+            } else if r != Res::PacketTooLarge {
+                flag(&mut viol, "Z2-wrong-error", "publish-after-replay", format!("limit {} on a resumed connection: a new PUBLISH with {} payload bytes failed with {:?}, not packet-too-large", m, m, r));
+            }
+        }
         if len as u64 > m as u64 {
             if !written.is_empty() {
                 flag(&mut viol, "Z1-oversize", &format!("replay-{}", name), format!("retained {} of {} bytes replayed although the new Maximum Packet Size is {} ({} bytes written)", name, len, m, written.len()));
@@ -577,7 +606,10 @@ pub fn run(tier: Tier, caps: &Caps) -> Vec<FamilyReport> {
         for n in [1usize, 2, 20, 118, 119, 120, 121, 122, 200] {
             for delta in -3..=3 {
                 for dress in [0u8, 1, 2, 3, 4] {
-                    rc.push(ReplayCase { kind, n, delta, dress });
+                    rc.push(ReplayCase { kind, n, delta, dress, tight: false });
+                    if dress < 2 {
+                        rc.push(ReplayCase { kind, n, delta, dress, tight: true });
+                    }
                 }
             }
         }
@@ -587,7 +619,7 @@ pub fn run(tier: Tier, caps: &Caps) -> Vec<FamilyReport> {
         "C14",
         rc.len() as u64,
         caps,
-        json!({"cases": rc.len(), "dimensions": "{publish QoS 1, publish QoS 2, subscribe} x 9 sizes retained on an unlimited connection, then a resumed connection whose limit is the packet length -3..=+3"}),
+        json!({"cases": rc.len(), "dimensions": "{publish QoS 1, publish QoS 2, subscribe} x 9 sizes retained on an unlimited connection, then a resumed connection whose limit is the packet length -3..=+3, in a roomy arena and in one barely larger than the packet (free space at the handshake below the limit); after an acknowledged fitting QoS 1 replay a new PUBLISH larger than the limit"}),
         &|i| eval_replay(&rc[i as usize]),
         &|i| serde_json::to_value(&rc[i as usize]).unwrap(),
     ));
